@@ -313,6 +313,11 @@ def run(rec, tier, seed):
     for i, tr in enumerate(latin_triples(K)):
         if i % (7 if quick else 2) == 0:
             cases.append({'gen': ['rank2', list(tr), 0, 2.5], 'routes': [list(r) for r in ROUTES_FAST], 'every': 7, 'style': 'edits'})
+    # every pair with the same interaction kind (unequal diameters and densities, so the pairs still differ), the closure and
+    # potential tables filled by ONE statement: table[types, types] = obj, or table.setUnset(obj)
+    for kind in K:
+        for st in ('bulk-list', 'bulk-setunset'):
+            cases.append({'gen': ['rank2', [kind, kind, kind], 0, 1.0], 'routes': [list(r) for r in ROUTES_FAST], 'every': 7, 'style': st})
     triples = latin_triples(K) if quick else list(itertools.product(K, repeat=3))
     for tr in triples:
         for omset, kT in ([(0, 1.0)] if quick else [(0, 1.0), (1, 1.0), (0, 2.5)]):
